@@ -165,12 +165,33 @@ def norm_lit_sets(l):
     return freeze(l)
 
 
+def scope_agg_locals(head, body):
+    """variables that occur only inside one aggregate literal are local to it: give them a name of their own per literal"""
+    plain = [l for l in body if l[0] != 'agg']
+    outside = set(all_vars(head, plain))
+    for l in body:
+        if l[0] == 'agg':
+            for g in (l[2], l[5]):
+                if g:
+                    outside.update(aspast.term_vars(g[1], []))
+    out = []
+    for i, l in enumerate(body):
+        if l[0] == 'agg':
+            inner = set(all_vars(('none',), [('agg', l[1], None, l[3], l[4], None)]))
+            ren = {v: f'{v}@{i}' for v in inner if v not in outside and v != '_'}
+            out.append(rename_lit(l, ren, [0]) if ren else l)
+        else:
+            out.append(l)
+    return out
+
+
 def canon_rule(head, body):
     """minimum, over all namings of the variables, of (head, sorted set of body literals)"""
     # make every '_' a distinct variable first
     counter = [0]
     head = rename_head(head, {}, counter)
     body = [rename_lit(l, {}, counter) for l in body]
+    body = scope_agg_locals(head, body)
     seen, uniq = set(), []
     for l in body:                     # repeated literals count once
         f = freeze(l)
@@ -187,9 +208,42 @@ def canon_rule(head, body):
         body = [rename_lit(l, ren0, c0) for l in body]
     vs = sorted(set(all_vars(head, body)) - {'_s'})
     best = None
-    perms = itertools.permutations(range(len(vs))) if len(vs) <= 6 else [tuple(range(len(vs)))]
+    # order the variables by where they occur (an invariant of renaming); only variables with the same occurrence
+    # signature are permuted among themselves
+    def sig(v):
+        mark = {x: ('#' if x == v else '.') for x in vs}
+        c1 = [0]
+        h1 = rename_head(head, mark, c1)
+        if h1[0] == 'choice':
+            h1 = ('choice', h1[1], tuple(norm_lit_sets(e) for e in h1[2]), h1[3])
+        b1 = tuple(sorted((repr(norm_lit_sets(rename_lit(l, mark, c1))) for l in body)))
+        return repr((freeze(h1), b1))
+    sigs = {v: sig(v) for v in vs}
+    vs = sorted(vs, key=lambda v: sigs[v])
+    groups = []
+    for v in vs:
+        if groups and sigs[groups[-1][0]] == sigs[v]:
+            groups[-1].append(v)
+        else:
+            groups.append([v])
+    total = 1
+    for g in groups:
+        for k in range(2, len(g) + 1):
+            total *= k
+    if total <= 5040:
+        def gen_perms(i):
+            if i == len(groups):
+                yield []
+                return
+            for p in itertools.permutations(groups[i]):
+                for rest in gen_perms(i + 1):
+                    yield list(p) + rest
+        orders = gen_perms(0)
+    else:
+        orders = [list(vs)]
+    perms = ({v: k for k, v in enumerate(o)} for o in orders)
     for perm in perms:
-        ren = {v: f'C{perm[i]}' for i, v in enumerate(vs)}
+        ren = {v: f'C{perm[v]}' for v in vs}
         c2 = [0]
         h2 = rename_head(head, ren, c2)
         if h2[0] == 'choice':
